@@ -5,16 +5,24 @@
                                 (predicate Rep, see EstProofs.v) is read back exactly from the JSON
                                 that From<ast::Expr> for est::Expr produces.
    c06_est_conditions_none      a policy without when/unless clauses: `conditions: []` reads back as no body.
-   c06_est_conditions_partial   a policy body e is read back exactly from the `conditions` array that
-                                From<ast::Template> for est::Policy produces.  PARTIAL: carries the side
-                                condition json_nodup (ast_to_est_expr e) (no duplicate keys in the produced
-                                JSON), which holds for every representable e but is not derived from Rep here;
-                                scope constraints, effect, annotations, ids and template links are NOT part of
-                                the model: they are covered by the implementation-level oracle only.
-   Not proved (oracle + harness only): c06_est_policy, c06_est_links, c06_text_vs_ast_json,
-   c06_json_meaning, c06_pst, c06_proto. *)
+   c06_est_conditions           a policy body e is read back exactly from the `conditions` array that
+                                From<ast::Template> for est::Policy produces (the absence of duplicate keys
+                                in the produced JSON is derived: nodup_expr).
+   c06_est_policy               the whole policy / template: id, effect, annotations (order and values), the
+                                three scope constraints (all forms, slots, is / is-in) and the body are read
+                                back exactly from template_to_est, for every JSON-representable template
+                                (TemplateRep, EstPolicyProofs.v).
+   c06_est_links                policy sets: the staticPolicies / templates / templateLinks document produced
+                                from a set description (ids, member policies, per link: template id, new id,
+                                slot bindings) is read back exactly (EstSetRep, EstSetProofs.v).  This is the
+                                JSON layer; the construction of the ast-level set from the description
+                                (build_pset: add_static / add_template / link of C08) and the extraction
+                                pset_to_estset are tied to the implementation by correspondence, and
+                                pset_to_estset (build_pset d) ~ d is NOT proved here.
+   Not proved (oracle + harness only): c06_text_vs_ast_json, c06_json_meaning, c06_pst, c06_proto
+   (no Pst.v / ProtoTree.v model exists). *)
 From Coq Require Import String.
-From Cedar Require Import Est EstProofs.
+From Cedar Require Import EstSet EstProofs EstPolicyProofs EstSetProofs.
 Open Scope Z_scope.
 
 Theorem c06_est_expr : forall e, Rep e -> est_to_ast_expr (ast_to_est_expr e) = Ok e.
@@ -25,11 +33,21 @@ Theorem c06_est_conditions_none : est_to_ast_conditions (ast_to_est_conditions N
 Proof. exact est_conditions_roundtrip_none. Qed.
 Print Assumptions c06_est_conditions_none.
 
-Theorem c06_est_conditions_partial : forall e,
-  Rep e -> has_slot e = false -> json_nodup (ast_to_est_expr e) = true ->
+Theorem c06_est_conditions : forall e,
+  Rep e -> Est.has_slot e = false ->
   est_to_ast_conditions (ast_to_est_conditions (Some e)) = Ok (Some e).
-Proof. exact est_conditions_roundtrip. Qed.
-Print Assumptions c06_est_conditions_partial.
+Proof. exact est_conditions_roundtrip_full. Qed.
+Print Assumptions c06_est_conditions.
+
+Theorem c06_est_policy : forall t,
+  TemplateRep t -> est_to_template (tid t) (template_to_est t) = Ok t.
+Proof. exact template_roundtrip. Qed.
+Print Assumptions c06_est_policy.
+
+Theorem c06_est_links : forall d,
+  EstSetRep d -> est_to_estset (estset_to_est d) = Ok d.
+Proof. exact estset_roundtrip. Qed.
+Print Assumptions c06_est_links.
 
 (* ---- non-vacuity: a body using every kind of node satisfies the hypotheses ---- *)
 Definition ex_user : uid := mkUid [K "NS"; K "User"] (K "a b").
@@ -45,7 +63,41 @@ Proof. cbn. repeat split; try reflexivity. exists (K "isIpv4"). split; reflexivi
 
 Example ex_body_roundtrip :
   est_to_ast_conditions (ast_to_est_conditions (Some ex_body)) = Ok (Some ex_body).
-Proof. apply c06_est_conditions_partial; [exact ex_body_rep | reflexivity | reflexivity]. Qed.
+Proof. apply c06_est_conditions; [exact ex_body_rep | reflexivity]. Qed.
+
+Definition ex_template : template :=
+  mkTemplate (K "t0") [(K "a", K "x"); (K "if", [])] Forbid
+    (CIsIn [K "NS"; K "User"] RefSlot)
+    (AIn [mkUid [K "Action"] (K "view"); mkUid [K "NS"; K "Action"] (K "x y")])
+    (CEq (RefUid ex_user)) (Some ex_body).
+Example ex_template_rep : TemplateRep ex_template.
+Proof.
+  unfold TemplateRep. cbn. repeat split; try reflexivity;
+    try (exists (K "isIpv4"); split; reflexivity); try (exists (K "ip"); split; reflexivity).
+Qed.
+Example ex_template_roundtrip : est_to_template (K "t0") (template_to_est ex_template) = Ok ex_template.
+Proof. apply (c06_est_policy ex_template). exact ex_template_rep. Qed.
+(* annotations out of key order are NOT read back in that order (BTreeMap) *)
+Example ex_annotations_sorted :
+  est_to_template (K "p") (template_to_est (mkTemplate (K "p") [(K "b", []); (K "a", [])] Permit CAny AAny CAny None)) =
+  Ok (mkTemplate (K "p") [(K "a", []); (K "b", [])] Permit CAny AAny CAny None).
+Proof. reflexivity. Qed.
+
+Definition ex_set : estset :=
+  mkEstSet [(K "t0", ex_template)]
+           [(K "s0", mkTemplate (K "s0") [] Permit CAny AAny CAny None)]
+           [mkLink (K "t0") (K "l0") [(SlotPrincipal, ex_user)]].
+Example ex_set_rep : EstSetRep ex_set.
+Proof. unfold EstSetRep. cbn. repeat split; try reflexivity;
+    try (exists (K "isIpv4"); split; reflexivity); try (exists (K "ip"); split; reflexivity). Qed.
+Example ex_set_roundtrip : est_to_estset (estset_to_est ex_set) = Ok ex_set.
+Proof. apply c06_est_links. exact ex_set_rep. Qed.
+Example ex_set_builds :
+  match build_pset ex_set with
+  | Ok s => map fst (ps_links s) = [K "s0"; K "l0"] /\ (pset_to_estset s) = ex_set
+  | Err _ => False
+  end.
+Proof. vm_compute. split; reflexivity. Qed.
 
 (* the fragment boundary is real: a folded `&&` and an Unknown are NOT read back *)
 Example ex_and_folds :
